@@ -130,6 +130,10 @@ def run(cx, chk):
     chk.rule("C17.R4", "no clock / random source in the LRU-family modules")
     chk.rule("C17.R6", "HashMap::capacity() of a node index is used as an allocation-size hint only (never compared, stored or returned)")
     chk.rule("C17.R5", "a hash container that is not the node index is only consumed in iteration order when it is the caller's own argument: no hash container built inside the LRU-family modules is iterated or handed on")
+    chk.rule("C17.R7", "supplying a BuildHasher changes nothing but hashing: the builder methods (hasher setters included) keep every other field of the builder in place")
+    from .lib import composite
+    for cfg, F in cx.cfgs():
+        composite.builder_setters(cx, chk, cfg, F, "C17.R7")
     for cfg, F in cx.cfgs():
         n_calls = n_drop = n_casts = n_cmp = n_hc = n_cap = 0
         for b in F.doc["bodies"]:
@@ -207,8 +211,8 @@ def run(cx, chk):
                             chk.violation("C17.R5", "%s|%s|%s" % (owner["q"], name, aty[:40]),
                                           "%s passes a %s that %s to %s: a hash container built inside the crate is consumed in an order that depends on the hasher" % (owner["q"], aty, org, q),
                                           file, t["ln"], fn["q"], None, cfg)
-                if file.startswith("src/lfu/wtinylfu") and name == "hash_key":
-                    chk.violation("C17.R3", "wtinylfu-hash|%s" % fn["q"], "W-TinyLFU computes a key hash outside TinyLFU", file, t["ln"], fn["q"], None, cfg)
+                if file.startswith("src/lfu/wtinylfu") and (name == "hash_key" or (name in ("hash_one", "build_hasher", "finish", "hash") and "hash" in q.lower() and not t.get("exp"))):
+                    chk.violation("C17.R3", "wtinylfu-hash|%s|%s" % (fn["q"], name), "W-TinyLFU computes a hash value itself (%s): outside TinyLFU a decision must not see hash bits" % q, file, t["ln"], fn["q"], None, cfg)
         chk.floor("C17.R1", "calls scanned in %s" % cfg, n_calls, 1000)
         chk.floor("C17.R1", "allowed drain site in Drop (%s)" % cfg, n_drop, 1)
         chk.floor("C17.R5", "caller-supplied hash containers consumed in %s" % cfg, n_hc, 2)
